@@ -164,7 +164,7 @@ def evaluate_chunk(args):
 def run(tier):
     chk = Check("C11", tier)
     bins = common.build("rel", ("vapi",))
-    nchunks, per, nstr = (16, 10, 200) if tier == "quick" else (64, 320, 140)
+    nchunks, per, nstr = (16, 10, 200) if tier == "quick" else (64, 160, 140)
     jobs = [(bins["vapi"], chk.seed, c, per, nstr, chk.scratch) for c in range(nchunks)]
     tot = {"ambiguous_skipped": 0, "programs": 0, "rejected": 0, "evaluations": 0, "nontrivial": 0, "systems": 0, "lookups": 0}
     types = {}
